@@ -63,6 +63,8 @@ VOCAB = {
               T("ldr x0, [x0, :lo12:{t}]", "ref", 4, "ldr", 0, attrs=("LO12",)), T("adr x0, {t}", "ref", 4, "adr", 0),
               T("add x0, x0, :lo12:{t}+8", "ref", 4, "add", 0, attrs=("LO12",), addend=8), T("adrp x0, {t}+8", "ref", 4, "adrp", 0, addend=8),
               T("ldr x0, [x0, :got_lo12:{t}]", "ref", 4, "ldr", 0, attrs=("GOT", "LO12")),
+              # pc-relative literal loads and addresses with an addend (a literal pool): the addend belongs to the operand
+              T("ldr x0, {t}+16", "ref", 4, "ldr", 0, addend=16), T("adr x0, {t}+8", "ref", 4, "adr", 0, addend=8), T("ldr x1, {t}", "ref", 4, "ldr", 0),
               T(".word 7", "data", 4), T(".byte 1, 2, 3, 4", "data", 4), T(".xword {t}", "dsym", 8, opoff=0, opsize=8), T(".word {t}+8", "dsym", 4, opoff=0, opsize=4, addend=8),
               T('.ascii "abcd"', "data", 4)],
     # MIPS32 (.set reorder: the assembler fills every delay slot with a nop, which starts the next block).  `b` is the pseudo
